@@ -74,6 +74,10 @@ func plan(tier string) []family {
 	}
 }
 
+// OnlyFamily, when set (development aid, flag -bfam), restricts the run to the families whose name
+// contains it; the evidence then reports exhaustive=false.
+var OnlyFamily string
+
 // Rule describes the enumeration for the evidence file.
 const Rule = "space B: every single-headed commit DAG shape with N commits (commit i>0 has 1 or 2 parents among 0..i-1) is written as a " +
 	"real bug history through StoreData/StoreTree/StoreCommit/UpdateRef; 'full' families take, per commit, every edit-clock option " +
@@ -114,6 +118,9 @@ func Run(tier string, seed uint64, rep *evidence.Reporter, deadline time.Time) (
 
 	for _, fam := range plan(tier) {
 		t0 := time.Now()
+		if OnlyFamily != "" && !strings.Contains(fam.Name, OnlyFamily) {
+			continue
+		}
 		if time.Now().After(deadline) {
 			exhaustive = false
 			famInfo = append(famInfo, map[string]any{"family": fam.Name, "skipped": "internal deadline"})
@@ -289,7 +296,7 @@ func Run(tier string, seed uint64, rep *evidence.Reporter, deadline time.Time) (
 		"distinct_valid_orders":          len(perms),
 		"distinct_valid_orders_not_in_commit_index_order": nonIdentity,
 		"counters":   other,
-		"exhaustive": exhaustive,
+		"exhaustive": exhaustive && OnlyFamily == "",
 		"rule":       Rule,
 		"samples":    samples,
 	}
